@@ -117,7 +117,7 @@ func sortEngine(o *Opts) {
 	b.WriteString("Definition fam_cases : list fam_case := [\n " + strings.Join(f, ";\n ") + "\n].\n")
 	b.WriteString("Definition req_cases : list req_case := [\n " + strings.Join(r, ";\n ") + "\n].\n")
 	b.WriteString("Definition node_cases : list node_case := [\n " + strings.Join(nd, ";\n ") + "\n].\n")
-	b.WriteString("Definition M := Eval vm_compute in (qsort_check qsort_cases ++ asort_check asort_cases ++ fam_check fam_cases ++ req_check req_cases ++ node_check node_cases).\nPrint M.\n")
+	b.WriteString("Definition M := Eval vm_compute in (qsort_check qsort_cases ++ asort_check asort_cases ++ fam_check fam_cases ++ req_check req_cases ++ node_check node_cases).\nOpen Scope N_scope.\nPrint M.\n")
 	writeFile(base+".v", b.String())
 	writeJSON(base+".json", all)
 	st.CasesFile, st.CasesJSON = base+".v", base+".json"
